@@ -4,6 +4,9 @@ mod c02;
 mod c03;
 mod c04;
 mod c05;
+mod c06;
+mod c07;
+mod js;
 mod c08;
 mod c09;
 mod c10;
@@ -87,6 +90,20 @@ fn props() -> Vec<Prop> {
         thorough_cases: 160,
         gen: c05::gen_case,
         run: c05::run_case,
+    }, Prop {
+        id: "C06",
+        rule: "schemas: the C07 corpus and random schemas of the supported subset plus allOf / oneOf / min-maxProperties / fractional multipleOf / exclusive decimal bounds / type lists; complete outputs are sampled through the masks (random walks, then a closing bias; every accepting state on the way is an output; single-byte and synthetic multi-byte vocabularies); every output must parse as JSON (strict parser and serde_json), must not repeat a key named under `properties`, and must validate under the Lean validator S5; distinct non-trivial = distinct schemas with at least one sampled output",
+        quick_cases: 60,
+        thorough_cases: 500,
+        gen: c06::gen_case,
+        run: c06::run_case,
+    }, Prop {
+        id: "C07",
+        rule: "schemas: corpus of the supported subset (objects with optional/required/additional properties, arrays with prefixItems/items/bounds, enum/const, anyOf, recursive $ref, numeric bounds, integer multipleOf, type lists) plus random schemas of that subset; candidate instances are generated from the schema, the Lean validator S5 decides validity, every valid instance is serialised compactly, with `, `/`: ` separators and pretty-printed, tokenised with the single-byte vocabulary and greedily with a synthetic multi-byte vocabulary, and fed: every token must be in the mask and commit and the end state must be accepting; distinct non-trivial = distinct schemas with at least one valid instance fed",
+        quick_cases: 40,
+        thorough_cases: 300,
+        gen: c07::gen_case,
+        run: c07::run_case,
     }, Prop {
         id: "C08",
         rule: "int-grid: every integer pair in a window (exhaustive) through rx_int_range vs the Lean model's printed pattern, a sub-sample through the whole engine; int-random: bounds around powers of ten up to 10^18 with inclusive/exclusive/missing bounds; dec-random: decimal bounds with up to three fractional digits; dec-near: both bounds from a small lattice (equal integer parts, integer-valued and zero bounds, shared fraction prefixes, all inclusive/exclusive combinations); mult-random: multipleOf combined with bounds; for each schema every literal of a grid in and around the bounds (0-4 fractional digits, trailing zeros, shorter forms) is accepted iff its exact value satisfies the keywords; distinct non-trivial = distinct schemas that compiled",
@@ -336,7 +353,7 @@ fn main() {
             for m in mm.iter().take(10) {
                 // queries to a proved *specification* decider (S4 chart recogniser): a disagreement is
                 // a concrete input on which the implementation departs from the property
-                let is_spec = m.request.starts_with("cfg q ");
+                let is_spec = m.request.starts_with("cfg q ") || m.request.starts_with("json v ");
                 rep.fail(
                     if is_spec { "spec" } else { "model" },
                     &format!("{}:{}", p.id.to_lowercase(), if is_spec { "spec-mismatch" } else { "model-mismatch" }),
